@@ -22,17 +22,22 @@ for lf in confirm:
         m = re.match(r'(\S+): demo exit with patch=(\d+), without patch=(\d+) => (\S+)', line)
         if m: conf[m.group(1)] = {"with_patch_exit": int(m.group(2)), "without_patch_exit": int(m.group(3)), "verdict": m.group(4)}
 res = {}
-for d in sorted(glob.glob(os.path.join(ROOT, 'seeded', 'C*-[0-9]'))):
+try: old = json.load(open(os.path.join(ROOT, 'seeded', 'RESULTS.json')))
+except Exception: old = {}
+def keyf(d):
+    n = os.path.basename(d); a, b = n.split('-'); return (a, int(b))
+for d in sorted(glob.glob(os.path.join(ROOT, 'seeded', 'C*-[0-9]*')), key=keyf):
     name = os.path.basename(d)
     meta = json.load(open(os.path.join(d, 'meta.json')))
-    rr = runs.get(name, [])
+    prev = old.get(name, {})
+    rr = [(x["check"], x["exit"], x["log"]) for x in prev.get("screening_runs", [])] + [x for x in runs.get(name, [])]
     caught = sorted({c for c, e, _ in rr if e == 1})
     first = rr[0] if rr else None
     v = {
         "property": meta.get("property", name.split('-')[0]),
         "title": meta.get("title", ""),
         "needs_to_manifest": meta.get("needs_to_manifest", ""),
-        "demonstration": conf.get(name, {"verdict": "not re-run yet"}),
+        "demonstration": conf.get(name, prev.get("demonstration", {"verdict": "not re-run yet"})),
         "screening_runs": [{"check": c, "exit": e, "log": l} for c, e, l in rr],
         "caught_by": caught,
         "caught_on_first_screening": bool(first and first[1] == 1),
